@@ -45,6 +45,27 @@ NOTES = {
  'C18b': ('detected', ''),
  'C19b': ('missed', 'both written orders of a @skip + @include pair on one node'),
  'C20b': ('detected', ''),
+ # third round: the agents were told the two earlier sites and asked for a third mechanism
+ 'C01c': ('missed', 'scheduled part: by-value sources and resolvers that read their source only after a scheduling point (gqlfix hook yields), in Expensive / parallel modes'),
+ 'C02c': ('detected', ''),
+ 'C03c': ('detected', ''),
+ 'C04c': ('detected', ''),
+ 'C05c': ('missed', 'batch function panics with an error value, an int and a struct value (not only a string)'),
+ 'C06c': ('missed', 'a service unreachable while a refresh fetches the schemas (transient fault), with a further request once it is back'),
+ 'C07c': ('missed', 'model structs with non-column fields (sql:"-" and unexported) before the filtered columns, in the live-query fixture and the tester-vs-WHERE table'),
+ 'C08c': ('detected', ''),
+ 'C09c': ('detected', ''),
+ 'C10c': ('detected', ''),
+ 'C11c': ('detected', ''),
+ 'C12c': ('detected', ''),
+ 'C13c': ('missed (the seed made the decoder panic, which the enumerating harness reported as an engine error, exit 2)', 'database column orders that differ from the struct\'s (reversed, rotated, unmapped columns in front / in the middle) through the real column-map builder; a panic escaping an enumerating harness is now a violation'),
+ 'C14c': ('missed', 'NonNullable plain and batch methods (object and scalar pointers) that return nil for some objects: an error is the conforming answer, a null is not'),
+ 'C15c': ('detected', ''),
+ 'C16c': ('missed', 'a configurable field whose resolver returns nothing but an error (plain, expensive, batch, fallback, parallel forms)'),
+ 'C17c': ('missed at quick (bound 2), detected at thorough (bound 3)', 'subscribe immediately followed by unsubscribe / close explored at bound 3 in the quick tier too'),
+ 'C18c': ('missed', 'variables as elements of list literals, fields of object literals and inside nested lists (all 32 subsets of five positions)'),
+ 'C19c': ('detected', ''),
+ 'C20c': ('detected', ''),
 }
 rows = []
 for name in sorted(os.listdir(ROOT)):
